@@ -96,6 +96,8 @@ impl MultiPeerBackend for RepSocketBackend {
             let _ = monitor.try_send(SocketEvent::Disconnected(peer_id.clone()));
         }
         self.peers.remove_sync(peer_id);
+        // Also drop the queued read half, otherwise recv keeps polling the dead connection.
+        self.fair_queue_inner.lock().remove(peer_id);
     }
 }
 
